@@ -102,6 +102,15 @@ def step (s : DSt) (line : String) : DSt × Option String :=
   | ["pubhookpanic", _] =>
     -- a before-publish hook panics: the publish is aborted before anything is recorded or delivered
     ({ s with buses := s.cur :: s.buses }, some "pubhookpanic aborted")
+  | ["pubdead", r] =>
+    -- a publish with a context that is already over: recorded by the memory store (which does not look at contexts), refused
+    -- by the SQLite store (one failure report); no handler runs either way
+    let s := { s with buses := s.cur :: s.buses }
+    let (i, offs) := getInst s
+    match i with
+    | .mem m => let m' := (m.append (nat! r)).1; (setInst s (.mem m') offs, some s!"pubdead n={m'.events.length} perr=0 handler=0")
+    | .sql q => (s, some s!"pubdead n={q.rows.length} perr=1 handler=0")
+    | .ds _ => (s, some "pubdead skip")
   | ["pubflaky", r] =>
     -- durable-streams only: the server stores the event, the acknowledgement is lost: one record, one failure report
     let s := { s with buses := s.cur :: s.buses }
@@ -119,6 +128,13 @@ def step (s : DSt) (line : String) : DSt × Option String :=
       match sqlParse o with
       | none => (s, some "streamtwice n=0 same=1")
       | some pos => (s, some s!"streamtwice n={(q.select pos none).length} same=1")
+  | ["appenddead", r] =>
+    -- the memory store does not look at the context; the SQLite store refuses (database/sql checks it first)
+    let (i, offs) := getInst s
+    match i with
+    | .mem m => let (m', o) := m.append (nat! r); (setInst s (.mem m') (offs ++ [o]), some ("appenddead " ++ offToString o))
+    | .sql _ => (s, some "appenddead err")
+    | .ds _ => (s, some "appenddead skip")
   | ["appendnil"] =>
     match (getInst s).1 with
     | .sql _ => (s, some "appendnil err")
